@@ -118,7 +118,8 @@ def main():
         dumps.append((fn, grow, split, nk, lf, it))
     deep = []
     from harness import replayplan as RP
-    for (nk, nv, lf, it, num, depth) in ([(16, 1, 2, 2, 30, 60)] if quick else [(16, 1, 2, 2, 200, 80), (16, 1, 3, 2, 100, 80)]):
+    # (interior size 3 as well: with size 2 the child at the split point of a non-root node is always on the path or new)
+    for (nk, nv, lf, it, num, depth) in ([(16, 1, 2, 2, 60, 60), (16, 1, 2, 3, 60, 60)] if quick else [(16, 1, 2, 2, 300, 80), (16, 1, 2, 3, 300, 80), (16, 1, 3, 2, 100, 80)]):
         fn, payloads, summ = RP.sim_dump(ck, nk, nv, lf, it, num, depth, spec='SpecEff')
         ck.add_tlc(summ, 'simulated deep shapes keys=%d sizes=(%d,%d)' % (nk, lf, it))
         grow = [i for i, tr in enumerate(payloads) if tr['act']['op'] in ('setitem', 'insert')
